@@ -190,6 +190,14 @@ def gather_programs(ctx):
         for _ in range(ctx.scale(1, 6)):
             src, _info = gen_prog.gen_twopass(rng, cpu, rng.randrange(4, 10))
             out.append(("twopass:" + cpu, src, [], {"twopass"}))
+    # raw bytes of every class inside literals / comments / separators (the reporting paths see the character stream)
+    for label, src in G.literal_fixed():
+        out.append((label, src, [], {"literal"}))
+    lg = G.LitGen(rng)
+    for _ in range(ctx.scale(25, 250)):
+        label, src = lg.program()
+        out.append((label, src, [], {"literal"}))
+    ctx.notes["literal_stats"] = dict(sorted(lg.stats.items()))
     return out
 
 
@@ -251,6 +259,11 @@ def inproc_stream(ctx, orc, progs, stats):
             continue
         bd = fields(base)
         stats["assembled_ok" if bd["st"] == "0" else "rejected"] = stats.get("assembled_ok" if bd["st"] == "0" else "rejected", 0) + 1
+        if "literal" in classes:
+            k = "literal_ok" if bd["st"] == "0" else "literal_rejected"
+            stats[k] = stats.get(k, 0) + 1
+            if bd["st"] != "0":
+                stats.setdefault("literal_rejected_labels", []).append(label)
         left = set()
         base_cells = cells_of(bd.get("img"))
         for fi, a, b, l in rows:
@@ -578,6 +591,7 @@ def oracle(ctx, orc, focus=None):
         k = label.split(":")[0]
         by[k] = by.get(k, 0) + 1
     stats["programs"] = by
+    stats["literal_distribution"] = ctx.notes.get("literal_stats")
     orc["stats"] = stats
     orc["distinct_nontrivial"] = len(set(p[1] for p in progs if p[1].count("\n") >= 4))
     orc["samples"] = [{"label": progs[i][0], "source_head": progs[i][1][:80]} for i in range(0, len(progs), max(1, len(progs) // 5))][:5]
